@@ -669,7 +669,7 @@ class CeiloChunk(AbstractChunk):
 
         # Add a column to the original data to keep track of the slice id.
         # First, set them all to -1 and force the correct dtype. I hate pandas for this ...
-        self.data.loc[:, 'slice_id'] = -1
+        self.data['slice_id'] = -1
         self.data['slice_id'] = self.data.loc[:, 'slice_id'].astype(int)
 
         # If I have only 1 valid point ...
@@ -784,7 +784,7 @@ class CeiloChunk(AbstractChunk):
         self._slices['isolated'] = None
 
         # Prepare to add the group id to the data frame
-        self.data.loc[:, 'group_id'] = None
+        self.data['group_id'] = None
 
         # Prepare a list of slices that are overlapping with one another.
         slice_bundles = []
@@ -908,7 +908,7 @@ class CeiloChunk(AbstractChunk):
                                  'finding groups first !')
 
         # Get ready to add the layering info to the data
-        self.data.loc[:, 'layer_id'] = None
+        self.data['layer_id'] = None
 
         # The ids of sub-layers are built as id_offset + 10*ind + sub_layer_id. Groups that do not
         # get split keep their group id as layer id: the offset must thus be larger than any
